@@ -47,7 +47,7 @@ def run(tier, seed):
     n = 150 if tier == "quick" else 1500
     progs, srcs = refrun.gen_programs(seed + 11, n // 2, 5, err_rate=0.6)
     # the other half also uses structs, field access, tuple destructuring and try blocks
-    p2, s2 = refrun.gen_programs(seed + 11, n - n // 2, 5, err_rate=0.6, base=n // 2, features={"ext": True})
+    p2, s2 = refrun.gen_programs(seed + 11, n - n // 2, 5, err_rate=0.6, base=n // 2, features={"ext": True, "ext2": "half"})
     progs += p2
     srcs.update(s2)
     d = scratch_dir("c02")
